@@ -6,10 +6,12 @@ Well-formedness respected by the generator (documented restrictions, DESIGN.md C
   * names and indices contain no tag characters; indices into arrays are digit strings
   * a loop's value name is not a prefix of another variable name used in its body (unique names)
   * expression operands resolve to exact integers / booleans / null / strings (no reals inside expressions)
-  * reals are multiples of 0.25 (exact in two fraction digits)
+  * reals are arbitrary finite doubles (JSON cannot carry NaN / infinity); the model takes the numeral's text and the
+    bits from its model of Digit::StringToNumber, exactly as the C++ takes them from JSON::Parse
   * sort only on objects or arrays of naturals / of strings; group only on arrays of objects carrying the key
 """
 import json
+import struct
 
 
 def U(s):
@@ -27,9 +29,7 @@ def ser_value(v):
     if isinstance(v, int):
         return ["N", str(v)] if v >= 0 else ["I", str(v)]
     if isinstance(v, float):
-        h = round(v * 100)
-        assert abs(h / 100.0 - v) < 1e-12
-        return ["R", str(h)]
+        return ["R", U(json.dumps(v))]      # the numeral exactly as json_text prints it
     if isinstance(v, str):
         return ["S", U(v)]
     if isinstance(v, list):
@@ -50,6 +50,36 @@ def json_text(v):
 STRS = ["abc", "x<y", "", "a&b", "10", "5", "it's", "Zed", "\"q\"", "tail ", "Tom &amp;", "&lt;", "x&gt;", "&quot;", "&am"]
 
 
+def bits_to_float(b):
+    return struct.unpack(">d", struct.pack(">Q", b))[0]
+
+
+def gen_real(rng):
+    """a finite double: the old quarter values, uniform bit patterns of moderate exponent, decimal ties at the template
+    precision (x.xx5) and binary ties (x.125), large / small magnitudes, zeros, integers stored as doubles"""
+    c = rng.randrange(10)
+    if c == 0:
+        return rng.choice([0.5, 1.5, 2.25, 3.0, -0.75, 10.25, 100.5, 0.0])
+    if c <= 2:
+        e = rng.randrange(1023 - 20, 1023 + 40)
+        return bits_to_float((rng.getrandbits(1) << 63) | (e << 52) | rng.getrandbits(52))
+    if c == 3:
+        x = (rng.randrange(0, 200000) * 10 + 5) / 1000.0          # x.xx5: the nearest double lies just below / above the tie
+        return -x if rng.random() < 0.3 else x
+    if c == 4:
+        return rng.choice([1, -1]) * (rng.randrange(0, 4000) + rng.choice([0.125, 0.375, 0.625, 0.875, 0.005, 0.015, 0.995, 0.994999, 0.9951]))
+    if c == 5:
+        return rng.choice([1e15, 1e16, 1e17, 123456789012345678.0, 1e21, 1e22, 9.87654321e25, 1.5e300, 1.7976931348623157e308,
+                           2.0 ** 53, 2.0 ** 53 + 2, 2.0 ** 63, 2.0 ** 64, -1e19]) * rng.choice([1, 1, -1])
+    if c == 6:
+        return rng.choice([1e-5, 1.23e-7, 4.9e-3, 0.004999, 0.005, 0.0050001, 1e-300, 2.2250738585072014e-308, 9.99e-3, 0.0099, 0.00999999]) * rng.choice([1, -1])
+    if c == 7:
+        return rng.choice([0.0, -0.0, 1.0, -1.0, 3.0, 100.0, 255.0, 1000000.0, 4294967296.0, 9007199254740993.0])
+    if c == 8:
+        return round(rng.uniform(-1000, 1000), rng.choice([1, 2, 3, 4]))
+    return rng.uniform(-10, 10) * 10 ** rng.randrange(-6, 12)
+
+
 def gen_scalar(rng, for_expr=False):
     c = rng.randrange(8)
     if c == 0:
@@ -59,7 +89,7 @@ def gen_scalar(rng, for_expr=False):
     if c == 2:
         return -rng.choice([1, 2, 5, 100])
     if c == 3 and not for_expr:
-        return rng.choice([0.5, 1.5, 2.25, 3.0, -0.75, 10.25, 100.5, 0.0])
+        return gen_real(rng)
     if c == 4:
         return True
     if c == 5:
@@ -79,7 +109,7 @@ def gen_root(rng):
     d["t"] = True
     d["f"] = False
     d["nul"] = None
-    d["r1"] = rng.choice([2.5, 0.25, 3.0, -1.75])
+    d["r1"] = gen_real(rng)
     # collections
     kind = rng.randrange(3)
     if kind == 0:
@@ -94,8 +124,9 @@ def gen_root(rng):
     d["nested"] = {"in": {"x": rng.choice([1, 2, "deep"]), "arr": [rng.choice([4, "s"]), [1, 2]]}, "arr": [[1, 2], [3]], "o2": {"p": 1, "q": "two"}}
     npos = rng.randrange(0, 5)
     items = []
+    gset = ["p", "q", "r&"] if rng.random() < 0.85 else [1.5, 0.1, 2.0, -0.0, 1e21, 0.30000000000000004]   # GroupBy names a group by the default real format
     for _ in range(npos):
-        o = {"name": rng.choice(["x", "y", "z"]), "val": rng.randrange(4), "g": rng.choice(["p", "q", "r&"])}
+        o = {"name": rng.choice(["x", "y", "z"]), "val": rng.randrange(4), "g": rng.choice(gset)}
         ks = list(o.keys())
         rng.shuffle(ks)     # the grouping key sits at any position
         items.append({k: o[k] for k in ks})
